@@ -161,7 +161,8 @@ DEGENERATE = [
     "", " ", "\n", "// only a comment", "/* unterminated", "//?: a: b", "//?: is-ssb-script: true", "//?: is-ssb-script: true\n",
     "//?: is-ssb-script: 1\ndef 0 { a(); }", "//?:", "//?: x", "  //?: k: v\n//?: k2: v2", "//?: is-ssb-script: false\ndef 0 { a(); }",
     "def 0 { @e; }", "def 0 { @a; @b; }", "def 0 { alias previous; }", "def 1 { a(); }", "def 1 { a(); } def 0 { b(); }",
-    "def 0 { a(); } def 0 { b(); }", "def -1 { a(); }", "def 0 { a(); } def -1 { b(); }", "def 0x2 { a(); }", "def 3 { alias previous; }",
+    "def 0 { a(); } def 0 { b(); }", "//?: is-ssb-script: true\ndef 0 {\n    §a;\n    foo();\n}\ndef 0 {\n    Jump(@a);\n}\n",
+    "def 0 { a(); } coro A { b(); } def 1 { c(); jump @x; } def 2 { @x; end; }", "def -1 { a(); }", "def 0 { a(); } def -1 { b(); }", "def 0x2 { a(); }", "def 3 { alias previous; }",
     "def 0 { a(); } def 5 { b(); }", "coro A { a(); } def 0 { b(); }", "def 0 { b(); } coro A { a(); }", "coro A { alias previous; }",
     "def 0 { switch ($A) { } }", "def 0 { switch ($A) { case 1: } }", "def 0 { switch ($A) { default: } }",
     "def 0 { switch ($A) { case 1: case 2: a(); } }", "def 0 { message_SwitchTalk ($A) { } }", "def 0 { forever { } }",
